@@ -63,6 +63,14 @@ CLAIMED.update({
             'DESIGN.md §3 C07'),
 })
 
+CLAIMED.update({
+    'C18': ('model_checking',
+            'dom_to_width / _bitfield_limits / _clip_subrange translated from their Python source to z3 (own path-enumerating AST translator) and proved for symbolic lo <= hi, |.| < 2^12; hint formulas printed by the API re-read and compared with lo <= x <= hi by z3 per declaration; prime / unprime / replace_with_* on rigid-table predicate families vs bit substitution; support classification vs dependence queries',
+            'Bounded solver check: the arithmetic core for ~2^24 declarations in a handful of queries; the public hint API for every (lo, hi) of a window; priming for all predicates of a shape at once with a rigid constant in the support.',
+            'Trusted: z3, the py2smt translator (unsupported syntax => inconclusive), dd node accessors, omega\'s parser for re-reading printed hints. Bounds: |lo|,|hi| < 2^12 symbolic, window [-12,12] (thorough [-40,40]) through the API, 3 flexible identifiers + 1 constant for priming.',
+            'DESIGN.md §3 C18'),
+})
+
 NOT_APPLICABLE = {
     'C16': 'Parser/precedence/round-trip: PLY regex lexer + table-driven LALR driver over token sequences; no arithmetic or bit-level state for a solver to range over. CrossHair on lexyacc.Parser.parse with symbolic strings (len <= 3) answers "Unable to meet precondition" after 90 s. See DESIGN.md §5.',
 }
